@@ -25,13 +25,32 @@ def getCheckpoint (s : Wit.Store) (id : Bytes) : Resp :=
     | some b => { status := 200, body := b }
     | none => { status := 404, body := [] }
 
-/-- the same request when the storage read fails with anything but NotFound (`GetCheckpoint` returns the error,
-    `httpForCode` maps every code other than NotFound/AlreadyExists/the argument codes to 500): the handler must not
-    present the failure as "no checkpoint" -/
-def getCheckpointF (readFails : Bool) (s : Wit.Store) (id : Bytes) : Resp :=
+/-- gRPC status codes as far as `httpForCode` tells them apart (`other`: every code the switch does not name,
+    among them Unknown — what `status.Code` gives for a plain error — Internal, Unavailable, PermissionDenied) -/
+inductive Code
+  | notFound | alreadyExists | failedPrecondition | invalidArgument | unauthenticated | other
+deriving DecidableEq, Repr
+
+/-- `httpForCode` -/
+def httpForCode : Code → Nat
+  | .alreadyExists => 409
+  | .notFound => 404
+  | .failedPrecondition => 400
+  | .invalidArgument => 400
+  | .unauthenticated => 400
+  | .other => 500
+
+/-- the same request when the storage read fails with an error of the given code (`GetCheckpoint` hands the error
+    on, the handler answers `httpForCode(status.Code(err))` and no checkpoint) -/
+def getCheckpointE (readErr : Option Code) (s : Wit.Store) (id : Bytes) : Resp :=
   if !routeMatch id then { status := 404, body := [] }
-  else if readFails then { status := 500, body := [] }
-  else getCheckpoint s id
+  else match readErr with
+    | some c => { status := httpForCode c, body := [] }
+    | none => getCheckpoint s id
+
+/-- a read that fails with a plain error (code Unknown) -/
+def getCheckpointF (readFails : Bool) (s : Wit.Store) (id : Bytes) : Resp :=
+  getCheckpointE (if readFails then some .other else none) s id
 
 /-- what the bundled client makes of it -/
 inductive ClientRes
